@@ -183,7 +183,36 @@ def apalache_inductive():
     res["ok"] = all(v == "NoError" for k, v in res.items() if k not in ("ran", "ok"))
     if not res["ok"]:
         raise tlc.TlcError("Apalache did not discharge DynLists!IndInv: %s" % res)
+    res["tlaps"] = tlaps_proof()
     return res
+
+
+def tlaps_proof():
+    """
+    DynLists_proofs.tla: the same inductive argument machine-checked by TLAPS for arbitrary Keys, Static and Targets
+    (Init => IndInv, IndInv /\ [Next]_vars => IndInv', IndInv => C16_NoEmptyWindow /\ C16_ListExact, hence Spec => []C16).
+    Checked from scratch in a temporary copy; skipped (and said so) when tlapm is absent.
+    """
+    import os
+    import re
+    import shutil
+    import subprocess
+    import tempfile
+
+    exe = shutil.which("tlapm")
+    if not exe:
+        return {"ran": False, "why": "tlapm not on PATH"}
+    with tempfile.TemporaryDirectory(prefix="tlaps-") as d:
+        for f in ("DynLists.tla", "DynLists_proofs.tla"):
+            shutil.copy(os.path.join(tlc.SPEC_DIR, f), d)
+        try:
+            p = subprocess.run([exe, "DynLists_proofs.tla"], cwd=d, stdout=subprocess.PIPE, stderr=subprocess.STDOUT, text=True, timeout=900)
+        except subprocess.TimeoutExpired:
+            raise tlc.TlcError("tlapm timed out on DynLists_proofs.tla")
+    m = re.search(r"All (\d+) obligations proved", p.stdout)
+    if not m or p.returncode != 0:
+        raise tlc.TlcError("TLAPS did not prove DynLists_proofs.tla: " + p.stdout[-800:])
+    return {"ran": True, "obligations_proved": int(m.group(1))}
 
 
 def run_into(out, tier, seed):
